@@ -11,6 +11,11 @@ from .engine import Val, Unsupported, EngineError, fresh, I, B, S, R, NONE_VAL
 MAX_INLINE_DEPTH = 12
 
 
+def _plain_utc(v):
+    off, aware = v.x.get("off", 0), v.x.get("aware", True)
+    return isinstance(off, int) and off == 0 and aware is True
+
+
 def _pattern_ok(t):
     """No interpreted boolean/ite structure inside (the solver rejects such terms as triggers)."""
     todo = [t]
@@ -180,11 +185,42 @@ class CallMixin:
                     fty = parse_type(ft)
                     out[k] = from_sort_term(st.read(f"{star.ty.args[0]}.{k}", sort_of(fty), star.t), fty)
                 return out
+        if star.ty.name == "SDict":
+            return dict(star.t)
         if star.ty.name == "Tuple" and star.x.get("kwnames"):
             return dict(zip(star.x["kwnames"], star.t))
         raise Unsupported(f"** of {star.ty}")
 
     # -- user functions ------------------------------------------------------------------------
+    def pick_contract(self, fi, env):
+        """The contract of fi whose parameter types accept the actual arguments (variants are registered
+        under `qualname:tag`); None when no variant fits (the callee is then inlined)."""
+        cands = []
+        if fi.qualname in CONTRACTS and CONTRACTS[fi.qualname].get("returns") == "SDict":
+            return None      # a plain dict with heterogeneous values has no symbolic representation: inline
+        if fi.qualname in CONTRACTS:
+            cands.append(CONTRACTS[fi.qualname])
+        cands += [c for k, c in CONTRACTS.items() if k.startswith(fi.qualname + ":")]
+        if len(cands) <= 1 and cands and not any(k.startswith(fi.qualname + ":") for k in CONTRACTS):
+            return cands[0]
+        for c in cands:
+            ok = True
+            for p, v in env.items():
+                if p in c["params"]:
+                    ty = parse_type(c["params"][p])
+                    try:
+                        if ty.name != "Tuple":
+                            to_sort_term(v, ty)
+                        if v.ty == DT and ty == DT and not _plain_utc(v) and p not in c.get("param_attrs", {}):
+                            ok = False
+                    except Unsupported:
+                        ok = False
+                    if not ok:
+                        break
+            if ok:
+                return c
+        return None
+
     def is_opaque(self, fi):
         return any(isinstance(d, ast.Name) and d.id == "opaque" for d in fi.node.decorator_list)
 
@@ -236,7 +272,7 @@ class CallMixin:
                 return self.call_opaque(fi, env, st)
             except Unsupported:
                 pass
-        c = CONTRACTS.get(fi.qualname)
+        c = self.pick_contract(fi, env)
         if c is not None and fi.qualname != self.cur_fn_real() and not st.spec \
                 and fi.qualname not in getattr(self, "force_inline", ()):
             return self.call_contract(fi, c, env, st, node)
@@ -401,7 +437,7 @@ class CallMixin:
             if p in c["params"]:
                 ty = parse_type(c["params"][p])
                 try:
-                    penv[p] = from_sort_term(to_sort_term(v, ty), ty) if ty.name != "Tuple" else v
+                    penv[p] = v if v.ty == ty else (from_sort_term(to_sort_term(v, ty), ty) if ty.name != "Tuple" else v)
                 except Unsupported:
                     raise Unsupported(f"argument {p} of {fi.qualname}: {v.ty} is not {ty}")
             else:
@@ -427,8 +463,11 @@ class CallMixin:
             result = NONE_VAL
         else:
             result = self.fresh_input("ret_" + short.replace(".", "_"), rty, st, assume_valid=False)
-            if c.get("fresh") and is_reflike(rty):
-                pass
+            if rty == DT:
+                # zone of a returned datetime: whatever the postcondition says about it (nothing assumed)
+                off, aware = fresh("ret_off", I), fresh("ret_aware", B)
+                st.assume(z3.Implies(z3.Not(aware), off == 0))
+                result = Val(DT, result.t, off=off, aware=aware)
             self.assume_ref_range(result, st)
         qenv = dict(penv)
         qenv["result"] = result
@@ -547,6 +586,8 @@ class CallMixin:
                     raise EngineError(f"modifies {m}: unknown field")
                 key = f"{cls}.{node.attr}"
                 st.write(key, sort_of(fty), obj.t, fresh("hv_" + node.attr, sort_of(fty)))
+                if CLASSDEFS.get(cls, {}).get("record"):
+                    st.write(key + "!has", B, obj.t, fresh("hv_has", B))      # presence of the key may change too
                 continue
             if isinstance(node, ast.Attribute) and isinstance(node.value, ast.Name):
                 # Class.field: whole field array
